@@ -420,7 +420,7 @@ func (p *untypedParamBinder) setFieldValue(target reflect.Value, defaultValue in
 			return nil
 		}
 		newVal := reflect.New(target.Type().Elem())
-		if err := p.setFieldValue(reflect.Indirect(newVal), defVal, data, hasKey); err != nil {
+		if err := p.setFieldValue(reflect.Indirect(newVal), defaultValue, data, hasKey); err != nil {
 			return err
 		}
 		if target.CanSet() {
